@@ -596,6 +596,10 @@ fn gen_op_assign(rng: &mut Rng, k: &Knobs, m: &Model, fault: bool, indexed: bool
       let cols = match m.store.get(&name).map(|b| b.v.clone()) { Some(SV::Table(_, c)) => c, _ => vec![] };
       let fits = |f: &Vec<(String, String, SV)>| f.len() == cols.len() && cols.iter().all(|(cn, ck, _)| f.iter().any(|(n, kd, v)| n == cn && kd == ck && v.is_scalar()));
       let holders = names_where(m, |b| matches!(&b.v, SV::Record(f) if fits(f)));
+      // `tb += tb2`: the rows of another table of the same schema (held in a variable)
+      let other_tables = names_where(m, |b| matches!(&b.v, SV::Table(_, c2) if c2.len() == cols.len() && cols.iter().zip(c2.iter()).all(|(x, y)| x.0 == y.0 && x.1 == y.1)));
+      let other_tables: Vec<&String> = other_tables.into_iter().filter(|t| **t != name).collect();
+      if !other_tables.is_empty() && rng.chance(1, 3) { return Some(Op::OpAssign { name, sub: None, op: Bop::Add, e: Expr::Var((*rng.pick(&other_tables)).clone()) }); }
       let e = if fault && rng.chance(1, 2) { Expr::Lit(SV::Record(vec![("a".to_string(), "f64".to_string(), gen_scalar(rng, "f64")), ("zz".to_string(), "f64".to_string(), gen_scalar(rng, "f64"))])) }
         else if !holders.is_empty() && rng.chance(3, 4) { Expr::Var((*rng.pick(&holders)).clone()) }
         else { Expr::Lit(SV::Record(cols.iter().map(|(cn, ck, _)| (cn.clone(), ck.clone(), gen_scalar(rng, ck))).collect())) };
